@@ -679,14 +679,24 @@ class DirectProxyAccessor(WritableAccessor[T_co], PhysicalAccessor[T_co]):
         if self.aslist:
             if isinstance(value, str) or not isinstance(value, cabc.Iterable):
                 raise TypeError("Can only set list attribute to an iterable")
+            new_values = [*value]
+            keep = {
+                id(v._element)
+                for v in new_values
+                if not isinstance(v, str | NewObject)
+            }
             list = self.__get__(obj)
             for v in list:
-                self.delete(list, v)
-            for i, v in enumerate(value):
+                if id(v._element) not in keep:
+                    self.delete(list, v)
+            for i, v in enumerate(new_values):
+                list = self.__get__(obj)
                 if isinstance(v, str):
-                    self.create_singleattr(list, v)
-                else:
-                    self.insert(list, i, v)
+                    v = self.create_singleattr(list, v)
+                    list = self.__get__(obj)
+                if i < len(list) and list[i]._element is v._element:
+                    continue
+                self.insert(list, i, v)
         else:
             if isinstance(value, cabc.Iterable) and not isinstance(value, str):
                 raise TypeError("Cannot set non-list attribute to an iterable")
